@@ -17,7 +17,7 @@ func init() {
 		Run: runC13,
 		Decided: "Quote refuses only for its four documented reasons, each under its documented condition and variant (R13a); every rune that starts a token for the lexer " +
 			"(regOps) triggers quoting, and the unquoted return is reachable only for strings with no shell character, no non-printable rune and that are not keywords (R13b); " +
-			"the double-quote fallback escapes every rune the lexer treats specially inside double quotes, plus the backslash (R13c).",
+			"the double-quote fallback escapes every rune the lexer treats specially inside double quotes, plus the backslash (R13c). The $-quote escapes Quote writes agree with the escape switch of package expand in letter, byte and hexadecimal width (R13e); the double-quote fallback writes its backslash unconditionally (R13c); RuneError tests carry the width conjunct (R13g).",
 		NotDecided:  "that the chosen quoting style expands back to the input in each shell (needs the shells); correctness of the $'..' escape sequences.",
 		Assumptions: []string{},
 		Controls:    c13Controls,
